@@ -22,8 +22,11 @@ ASSUMPTIONS = [
     "model validated against the implementation by execution on generated lists, not verified against Go source",
     "sort.Slice is modelled by the insertion sort it runs on at most 12 elements; on longer slices the result is the same "
     "whenever the comparator separates the elements (theorem); longer slices with ties are skipped and counted",
-    "permutation invariance for Maven/PyPI is decided under the side condition that no two different spellings compare equal "
-    "(F-C12-1); inside that condition a difference is a violation",
+    "while SortVersions has no tie-break (F-C12-1 open) permutation invariance for Maven/PyPI is decided under the side condition "
+    "that no two different spellings compare equal; inside that condition, and everywhere once the finding is closed, a "
+    "difference is a violation",
+    "the variant of match.go (latest by tag or by substring, matchRequirement sorting or not, tie-break or not) is detected on every "
+    "run by replaying the recorded witnesses on the Go code; the correspondence runs the model in that variant",
 ]
 
 MANIFEST = dict(
@@ -214,14 +217,19 @@ def check_matchreq(ctx, s, req, recs, tab, perms, outs):
                 return
     if any(r != results[0] for r in results):
         payload = {"system": s, "requirement": sx(req), "versions": sx(recs), "orders": perms}
-        if s != NPM:
+        if s != NPM and all(r == [x for x in [d[i] for i in p] if cc.satisfies(tab, s, req, x)] for r, p in zip(results, perms)):
             known(ctx, "F-C12-1b", "MatchRequirement (Maven/PyPI) result depends on the order of the input list", payload, sx(results), None)
+        elif s != NPM and cc.equal_distinct(tab, s, strs):
+            known(ctx, "F-C12-1", "MatchRequirement (Maven/PyPI) depends on the input order for versions that compare equal but are "
+                  "spelled differently", payload, sx(results), None)
         else:
             ctx.violation("MatchRequirement (npm): result depends on the order of the input list", payload, observed=sx(results))
 
 
 def run(ctx):
     rng = ctx.rng
+    variant = cc.detect_variant(ctx)
+    cfg = variant[1]
     nl = ctx.scale(1700, 34000)
 
     # ---------- SortVersions ----------
@@ -233,8 +241,9 @@ def run(ctx):
             recs[0] = [rng.choice(cc.PYPI_UNPARSABLE), CONCRETE, []]     # correspondence only
         lists.append((s, recs, shuffles(rng, len(recs))))
     tabs = cc.request_tables(ctx, [{s: ([r[0] for r in recs], [])} for s, recs, _ in lists])
-    cases = [sx([t.parsed, s, recs, p]) for (s, recs, perms), t in zip(lists, tabs) for p in perms]
-    impl, _ = ctx.correspond("sortv", cases)
+    cases = [sx([t.parsed, s, recs, p, cfg]) for (s, recs, perms), t in zip(lists, tabs) for p in perms]
+    impl, model = ctx.correspond("sortv", cases)
+    kc = [("sortv", c, m) for c, m in zip(cases, model) if '"oom"' not in m][:400:10]
     k = 0
     for (s, recs, perms), t in zip(lists, tabs):
         outs = impl[k:k + len(perms)]
@@ -258,8 +267,10 @@ def run(ctx):
         recs = gen_list(rng, s)
         lists.append((s, gen_req(rng, s, recs), recs, shuffles(rng, len(recs))))
     tabs = cc.request_tables(ctx, [{s: ([r[0] for r in recs], [req])} for s, req, recs, _ in lists])
-    cases = [sx([t.parsed, s, req, recs, p]) for (s, req, recs, perms), t in zip(lists, tabs) for p in perms]
-    impl, _ = ctx.correspond("matchreq", cases)
+    cases = [sx([t.parsed, s, req, recs, p, cfg]) for (s, req, recs, perms), t in zip(lists, tabs) for p in perms]
+    impl, model = ctx.correspond("matchreq", cases)
+    kc += [("matchreq", c, m) for c, m in zip(cases, model) if '"oom"' not in m][:400:10]
+    lib.kernel_crosscheck(ctx, kc, maxn=80)
     k = 0
     for (s, req, recs, perms), t in zip(lists, tabs):
         outs = impl[k:k + len(perms)]
@@ -275,9 +286,6 @@ def run(ctx):
             ctx.sample({"kind": "matchreq", "system": s, "requirement": sx(req), "versions": sx(recs)[:300], "impl": outs[0][:300]})
 
     # ---------- LocalClient.MatchingVersions: insertion order must not matter ----------
-    import importlib
-    c14 = importlib.import_module("props.C14")
-    variant = c14.detect_variant(ctx)
     nh = ctx.scale(1000, 20000)
     lists = []
     for i in range(nh):
